@@ -10,7 +10,8 @@ package rcmgr
 //       memory+size <= limit*(1+prio)/256 ("unlimited" = MaxInt64 grants), refusals wrap
 //       network.ErrResourceLimitExceeded -- for every priority 0..255, wherever the current usage
 //       is itself within the limit.
-// and runs the one end-to-end history in which the sum of the holders is not representable.
+// and runs the one end-to-end history in which the sum of the holders is not representable
+// (regression for 64fc8f8: the second reservation must be refused).
 
 import (
 	"encoding/json"
@@ -157,6 +158,9 @@ func TestVerifC03CheckMemory(t *testing.T) {
 	res.Count(1, 2)
 	if e1 != nil {
 		res.AddMismatch(vfh.Mismatch{Class: "checkmemory:spurious-refusal", What: fmt.Sprintf("unlimited scope refused MaxInt64-1 bytes: %v", e1), Walk: -1})
+	}
+	if e2 != nil && !errors.Is(e2, network.ErrResourceLimitExceeded) {
+		res.AddMismatch(vfh.Mismatch{Class: "checkmemory:error-class", What: fmt.Sprintf("unlimited scope: the refusal of the overflowing reservation does not wrap ErrResourceLimitExceeded: %v", e2), Walk: -1})
 	}
 	if st.Memory < 0 || (e2 == nil && st.Memory != math.MaxInt64-1) {
 		res.AddMismatch(vfh.Mismatch{Class: "bounds:reserve:unlimited-scope-memory-overflows-int64",
